@@ -572,9 +572,11 @@ class _Machine:
             if not container and not all(_concrete(a) for a in list(args) + list(kwargs.values())):
                 raise CannotEval(f"standard-library call with a non-literal argument: {short(node, 60) if node is not None else f.obj}")
             try:
-                return f.obj(*args, **kwargs)
+                r = f.obj(*args, **kwargs)
             except (TypeError, ValueError, KeyError, IndexError, AttributeError, _re_mod.error) as x:
                 raise _Rse(_Opaque(type(x).__name__), node)
+            # a view of a table (d.values() / d.keys() / d.items()) is walked as the list of what it shows at that moment (loops and comprehensions iterate lists)
+            return list(r) if isinstance(r, (type({}.values()), type({}.keys()), type({}.items()))) else r
         if isinstance(f, _Opaque):
             if self.on_opaque_call is not None:
                 r = self.on_opaque_call(f, args, kwargs)
@@ -1065,6 +1067,79 @@ class _BoundHook:
         self.obj, self.attr = obj, attr
 
 
+class _Exploring(_Machine):
+    """The machine on a method that also reads state the rule does not model (flags, step indices, collaborators of the object). While `open_` is set
+      - the test of an `if` STATEMENT that is not decidable (truth value / ordering / membership of an unknown value) is decided by the next entry of `decisions` (True once they
+        are used up); `taken` records the decisions of the walk, so that a caller can enumerate the paths of the method by flipping one decision at a time;
+      - an EXPRESSION that is not evaluable has an unknown value (_Opaque, kind 'attr'): it can be stored, passed on and formatted into a message, it never becomes a number a
+        rule judges (_unknown) and it decides nothing inside a value: a comprehension filter / conditional expression / helper call on an unknown value makes the whole value
+        unknown, it is never guessed;
+      - `sink(callee, args, kwargs, node)` observes every call of something the machine does not model (a collaborator's method).
+    With `open_` unset it is the plain machine."""
+
+    def __init__(self, mod, **kw):
+        super().__init__(mod, **kw)
+        self.open_, self.decisions, self.taken, self.sink, self._deciding = False, (), [], None, 0
+
+    def _decide(self):
+        d = self.decisions[len(self.taken)] if len(self.taken) < len(self.decisions) else True
+        self.taken.append(bool(d))
+        return bool(d)
+
+    def truth(self, v):
+        try:
+            return super().truth(v)
+        except CannotEval:
+            if self.open_ and self._deciding:
+                return self._decide()
+            raise
+
+    def compare(self, op, a, b, node):
+        try:
+            return super().compare(op, a, b, node)
+        except CannotEval:
+            if self.open_ and self._deciding:
+                return self._decide()
+            raise
+
+    def call(self, f, args, kwargs, node=None):
+        if not self.open_:
+            return super().call(f, args, kwargs, node)
+        if self.sink is not None and isinstance(f, _Opaque):
+            self.sink(f, args, kwargs, node)
+        saved, self._deciding = self._deciding, 0  # nothing is decided inside a callee's values; the `if` statements of a walked helper decide for themselves (stmt)
+        try:
+            return super().call(f, args, kwargs, node)
+        finally:
+            self._deciding = saved
+
+    def ev(self, e, env):
+        if not self.open_:
+            return super().ev(e, env)
+        saved = self._deciding
+        if isinstance(e, (ast.ListComp, ast.SetComp, ast.GeneratorExp, ast.DictComp, ast.IfExp, ast.Lambda)):
+            self._deciding = 0
+        try:
+            return super().ev(e, env)
+        except CannotEval:
+            if self.steps > self.budget:
+                raise
+            return _Opaque(f"unknown:{short(e, 40)}", "attr")
+        finally:
+            self._deciding = saved
+
+    def stmt(self, s, env):
+        if not (self.open_ and isinstance(s, ast.If)):
+            return super().stmt(s, env)
+        self.steps += 1
+        self._deciding += 1
+        try:
+            t = self.truth(self.ev(s.test, env))
+        finally:
+            self._deciding -= 1
+        self.block(s.body if t else s.orelse, env)
+
+
 def _as_load(t):
     n = source.clone(t)
     for x in ast.walk(n):
@@ -1262,11 +1337,16 @@ def progress_aggregate_rule(chk, rid, drv):
       (key)  a client that runs two tasks of a parallel element in turn must not overwrite its finished task's 100% with the next task's first sample: the table key separates
              (client, task). Decided on values: Driver.update_samples is WALKED by the local machine on shipments of sample objects and the keys under which the samples end
              up in the table are read off the table (no statement shape is matched: a loop with a subscript store, `table.update({key: s for s in batch})`, a helper method).
-      (mean) the divisor must not be the number of clients that have reported SO FAR: a slower client's first report then lowers the mean. Decided on values when the EXTRACTED
-             aggregate is a function of the table alone (history: client 0 reports 60%, then client 1 reports 20%); an aggregate that also reads other driver state (the
-             allocations of the step, a high-water mark) is accepted, not evaluated (necessary, not sufficient).
+      (mean) the divisor must not be the number of clients that have reported SO FAR: a slower client's first report then lowers the mean. Decided on values (history: client 0
+             reports 60%, then client 1 reports 20%): Driver.update_progress_message is WALKED (_Exploring) on the same driver stand-in after every shipment and the figures it
+             hands to the reporter's print are read off the call (60 -> 40 on the pinned tree). No shape of the method is matched - an averaging / printing helper method, a
+             guard clause, a reporter read into a local, f-strings, a loop instead of the comprehension are walked like the original; the `if`s on state the stand-in does not
+             model (quiet flag, step index) are enumerated as paths. Only where the walk yields no number (an aggregate that also reads other driver state - the allocations of
+             the step, a high-water mark -, a library mean) the EXTRACTED aggregate is consulted as before: evaluated when it is a function of the table alone, accepted, not
+             evaluated, when it also reads other driver state (necessary, not sufficient).
     Roles: table = the table-valued attribute of the driver that holds the shipped sample object after update_samples([sample]) (by identity of the value, not by name);
-    aggregate = the table-dependent value that flows into the progress reporter's print call in update_progress_message."""
+    reported progress = the numbers in the arguments of `<collaborator of the driver>.print(...)` that grow with the progress of the samples in the table (fallback: the
+    table-dependent value - read directly or through a helper method of the driver - that flows into the reporter's print call in update_progress_message)."""
     DR = drv.cls("Driver")
     us, up = _prop(drv, DR, "update_samples"), _prop(drv, DR, "update_progress_message")
     _param(us, 1)
@@ -1295,10 +1375,10 @@ def progress_aggregate_rule(chk, rid, drv):
                     if is_self_attr(t) and kind:
                         kinds.setdefault(t.attr, set()).add(kind)
 
-    def feed(history):
-        """Driver.update_samples walked by the local machine once per sample of `history` (a shipment of one sample each) on a driver stand-in; yields the driver's fields after
-        every shipment. A helper method update_samples calls is followed; an attribute nobody initialises to a container is an unmodelled object."""
-        m = _Machine(drv)
+    def standin():
+        """a driver stand-in and a machine to walk its methods: every attribute some method of the class sets to an empty table / list starts as one, an attribute nobody
+        initialises to a container is an unmodelled object (a flag, a step index, a collaborator: the progress reporter, the logger)."""
+        m = _Exploring(drv)
         driver = _Obj("driver", cls=DR, **{a: ({} if k == {"dict"} else []) for a, k in kinds.items() if len(k) == 1})
 
         def unmodelled(attr):
@@ -1307,11 +1387,20 @@ def progress_aggregate_rule(chk, rid, drv):
             return driver.fields.setdefault(attr, _Opaque(f"driver.{attr}"))
 
         driver.on_load = unmodelled
+        return m, driver
+
+    def ship(m, driver, s_):
+        try:
+            m.call(m.load(driver, us.name), [[s_]], {})
+        except _Rse as x:
+            raise CannotEval(f"the walk of Driver.update_samples on a shipment of one sample raises {x.name()}")
+
+    def feed(history):
+        """Driver.update_samples walked by the local machine once per sample of `history` (a shipment of one sample each) on a driver stand-in; yields the driver's fields after
+        every shipment. A helper method update_samples calls is followed."""
+        m, driver = standin()
         for s_ in history:
-            try:
-                m.call(m.load(driver, us.name), [[s_]], {})
-            except _Rse as x:
-                raise CannotEval(f"the walk of Driver.update_samples on a shipment of one sample raises {x.name()}")
+            ship(m, driver, s_)
             yield driver.fields
 
     def tables_holding(fields, s_):
@@ -1331,34 +1420,137 @@ def progress_aggregate_rule(chk, rid, drv):
         """the key under which update_samples files the sample (observed on the walk)"""
         return tables_holding(list(feed([s_]))[-1], s_)[0][1][0]
 
-    def mentions_table(e):
-        return any(is_self_attr(x, T) for x in ast.walk(e))
+    methods = drv.methods(DR)
 
-    # the aggregate: table-dependent value(s) reaching the reporter's print call
-    prints = [c for c in walk_body(up) if isinstance(c, ast.Call) and isinstance(c.func, ast.Attribute) and c.func.attr == "print" and is_self_attr(c.func.value)]
-    if not prints:
-        raise AnchorMissing("self.<progress reporter>.print(...) in Driver.update_progress_message")
-    pdefs = local_defs(up)
-    aggs = []
-    for c in prints:
-        for a in list(c.args) + [k_.value for k_ in c.keywords]:
-            inl = source.inline_node(a, pdefs)
-            if mentions_table(inl):
-                aggs.append((source.enclosing_stmt(c), inl))
-            for nm in {x.id for x in ast.walk(inl) if isinstance(x, ast.Name) and isinstance(x.ctx, ast.Load)}:
-                for st in walk_body(up):
-                    if isinstance(st, ast.Assign) and any(isinstance(t, ast.Name) and t.id == nm for t in st.targets):
-                        v = source.inline_node(st.value, pdefs)
-                        if mentions_table(v) and not any(st is s_ for s_, _ in aggs):
-                            aggs.append((st, v))
-    if not aggs:
-        raise AnchorMissing(f"a value derived from self.{T} that reaches the progress reporter in Driver.update_progress_message")
-    # per-step high-water mark: max(..., self.<attr>, ...) with that attribute stored in the same method
-    stored = {t.attr for st in walk_body(up) if isinstance(st, (ast.Assign, ast.AugAssign)) for t in (st.targets if isinstance(st, ast.Assign) else [st.target]) if is_self_attr(t)}
-    hw = sorted({a.attr for c in walk_body(up) if isinstance(c, ast.Call) and dotted(c.func) == "max" for a in c.args if is_self_attr(a) and a.attr != T and a.attr in stored})
+    def closure(f):
+        """f and the methods of the driver it reaches through self.<m>(...) / Driver.<m>(...) calls (an extracted helper is analysed together with its caller)"""
+        out, todo = [], [f]
+        while todo:
+            g = todo.pop(0)
+            if any(g is x for x in out):
+                continue
+            out.append(g)
+            for c in walk_body(g):
+                if isinstance(c, ast.Call) and isinstance(c.func, ast.Attribute) and isinstance(c.func.value, ast.Name) and c.func.value.id in ("self", "cls", DR.name) and c.func.attr in methods:
+                    todo.append(methods[c.func.attr])
+        return out
+
+    readers = {f.name for f in methods.values() if f is not us and f is not up and any(is_self_attr(x, T) for g in closure(f) for x in walk_body(g))}
+
+    def mentions_table(e):
+        """the expression reads the table itself or calls a helper method of the driver that does"""
+        return any(is_self_attr(x, T) or (isinstance(x, ast.Call) and isinstance(x.func, ast.Attribute) and isinstance(x.func.value, ast.Name) and x.func.value.id in ("self", "cls", DR.name)
+                                          and x.func.attr in readers) for x in ast.walk(e))
+
+    # ---- the reported value, (1) by a WALK of update_progress_message -------------------------------------------------------------------------------------------------------
+    # Role: reported progress = the number(s) in what update_progress_message hands to the print call of a collaborator the driver does not define (the progress reporter; print
+    # is the reporter's API) that grow with the progress of the samples in the table. Nothing of the method's shape is matched: locals, a guard clause, an extracted averaging /
+    # printing helper, %-formatting vs f-string, a loop instead of a comprehension are all just walked. State the stand-in does not model (quiet flag, step index, tasks of the
+    # step) is unknown: the `if` statements on it are enumerated as paths, a value computed from it is unknown (never a number that is judged).
+    required = len(up.args.posonlyargs) + len(up.args.args) - 1 - len(up.args.defaults)
+
+    def handed(m, driver, decisions):
+        calls = []
+
+        def sink(f, args, kwargs, node):
+            if f.label.endswith(".print"):
+                calls.append((node, list(args) + list(kwargs.values())))
+
+        m.open_, m.decisions, m.taken, m.sink = True, tuple(decisions), [], sink
+        try:
+            m.call(m.load(driver, up.name), [_Opaque(f"argument #{i + 1}") for i in range(max(required, 0))], {})  # optional parameters (task_finished=False: a RUNNING step) at their defaults
+        except (_Rse, CannotEval):
+            pass  # a path that ends in an exception / cannot be walked to its end: what was handed over before still counts
+        finally:
+            m.open_, m.sink = False, None
+        return calls, list(m.taken)
+
+    def numbers(args):
+        out = []
+        for a in args:
+            if isinstance(a, (int, float)) and not isinstance(a, bool):
+                out.append(float(a))
+            elif isinstance(a, str):
+                out += [float(x) for x in _re_mod.findall(r"(?<![\w.])-?\d+(?:\.\d+)?", a)]
+        return out
+
+    def observe(decisions, history):
+        """(numbers handed to the reporter, decisions taken, print calls) after each shipment of `history`, update_progress_message walked under `decisions`"""
+        m, driver = standin()
+        out = []
+        for s_ in history:
+            ship(m, driver, s_)
+            calls, taken = handed(m, driver, decisions)
+            out.append(([x for _, args in calls for x in numbers(args)], taken, calls))
+        return out
+
+    def locate():
+        """a path through update_progress_message on which the reporter is handed a number that grows with the progress in the table: (decisions, positions of such numbers among
+        the numbers handed over, how many numbers, the print call) - None when no path of the first 32 (one decision flipped at a time, at most 8 decisions deep) has one."""
+        queue, tried = [()], set()
+        while queue and len(tried) < 32:
+            dec = queue.pop(0)
+            if dec in tried:
+                continue
+            tried.add(dec)
+            (lo, taken, calls), = observe(dec, [sample(0, TA, 0.25)])
+            (hi, _, _), = observe(dec, [sample(0, TA, 0.75)])
+            if lo and len(lo) == len(hi):
+                pos = [i for i, (a, b) in enumerate(zip(lo, hi)) if b > a]
+                if pos:
+                    return tuple(taken), pos, len(lo), calls[0][0]
+            for i in range(len(dec), min(len(taken), 8)):
+                queue.append(tuple(taken[:i]) + (not taken[i],))
+        return None
+
+    try:
+        found = locate()
+    except CannotEval:
+        found = None
+
+    def reported(history):
+        """the progress figures the reporter is handed after each shipment of `history` (on the located path)"""
+        out = []
+        for nums, _, _ in observe(found[0], history):
+            if len(nums) != found[2]:
+                raise CannotEval(f"the reporter is handed {len(nums)} number(s) instead of {found[2]} after a shipment")
+            out.append(tuple(nums[i] for i in found[1]))
+        return out
+
+    # ---- the reported value, (2) EXTRACTED: the table-dependent value(s) that flow into the reporter's print call (used where the walk does not yield a number: an aggregate that
+    # also reads other driver state - the allocations of the step, a high-water mark -, a library mean) -------------------------------------------------------------------------
+    def extracted():
+        prints = [c for c in walk_body(up) if isinstance(c, ast.Call) and isinstance(c.func, ast.Attribute) and c.func.attr == "print" and is_self_attr(c.func.value)]
+        if not prints:
+            raise AnchorMissing("self.<progress reporter>.print(...) in Driver.update_progress_message")
+        pdefs = local_defs(up)
+        out = []
+        for c in prints:
+            for a in list(c.args) + [k_.value for k_ in c.keywords]:
+                inl = source.inline_node(a, pdefs)
+                if mentions_table(inl):
+                    out.append((source.enclosing_stmt(c), inl))
+                for nm in {x.id for x in ast.walk(inl) if isinstance(x, ast.Name) and isinstance(x.ctx, ast.Load)}:
+                    for st in walk_body(up):
+                        if isinstance(st, ast.Assign) and any(isinstance(t, ast.Name) and t.id == nm for t in st.targets):
+                            v = source.inline_node(st.value, pdefs)
+                            if mentions_table(v) and not any(st is s_ for s_, _ in out):
+                                out.append((st, v))
+        if not out:
+            raise AnchorMissing(f"a value derived from self.{T} that reaches the progress reporter in Driver.update_progress_message")
+        return out
+
+    try:
+        aggs, aggs_missing = extracted(), None
+    except AnchorMissing as e:
+        aggs, aggs_missing = [], e
+    # per-step high-water mark: max(..., self.<attr>, ...) with that attribute stored in the same method (or in a helper it calls)
+    reach = closure(up)
+    stored = {t.attr for g in reach for st in walk_body(g) if isinstance(st, (ast.Assign, ast.AugAssign)) for t in (st.targets if isinstance(st, ast.Assign) else [st.target]) if is_self_attr(t)}
+    hw = sorted({a.attr for g in reach for c in walk_body(g) if isinstance(c, ast.Call) and dotted(c.func) == "max" for a in c.args if is_self_attr(a) and a.attr != T and a.attr in stored})
 
     def replay(history):
-        """the reported values after each shipment of `history`: the table is filled by the walk of update_samples, the extracted aggregate(s) evaluated on it."""
+        """the values of the extracted aggregate(s) after each shipment of `history`: the table is filled by the walk of update_samples, the aggregate evaluated on it."""
         out = []
         for fields in feed(history):
             table = {k_: records[id(x)][1] for k_, x in fields[T].items()}
@@ -1369,6 +1561,9 @@ def progress_aggregate_rule(chk, rid, drv):
     def pct(vs):
         return " -> ".join(f"{round(v * 100)}%" if isinstance(v, (int, float)) else str(v) for v in vs)
 
+    def figures(seq):
+        return " -> ".join("/".join(f"{v:g}" for v in t) for t in seq)
+
     # (key)
     try:
         k_a, k_a2, k_b, k_c1 = key_of(sample(0, TA, 0.25)), key_of(sample(0, TA, 1.0)), key_of(sample(0, TB, 0.25)), key_of(sample(1, TA, 0.25))
@@ -1377,10 +1572,13 @@ def progress_aggregate_rule(chk, rid, drv):
     except (CannotEval, TypeError, IndexError) as e:
         chk.unknown(rid, f"the key under which Driver.update_samples files a sample in self.{T} is not observable on a sample object (client_id, task, percent_completed): {e}", store)
         return
+    wit = ""
     try:
-        wit = "; one client running task a, then task b of the same step is reported as " + pct(replay([sample(0, TA, 0.25), sample(0, TA, 1.0), sample(0, TB, 0.25)]))
+        turn = [sample(0, TA, 0.25), sample(0, TA, 1.0), sample(0, TB, 0.25)]
+        if found or aggs:
+            wit = "; one client running task a, then task b of the same step is reported as " + (figures(reported(turn)) if found else pct(replay(turn)))
     except (CannotEval, TypeError, ZeroDivisionError):
-        wit = ""
+        pass
     chk.ob(rid, "progress table: the samples of one client for two tasks of the step occupy two entries (or the reported value is a per-step high-water mark)", k_a != k_b or bool(hw), store,
            f"update_samples files a sample in self.{T} under the keys {k_a!r} / {k_b!r} for (client 0, task a) / (client 0, task b)" + (f"; high-water mark self.{hw[0]}" if hw else "") + (wit if k_a == k_b and not hw else ""),
            key=f"{_D}:Driver.update_samples:progress-table-key:client-with-two-tasks")
@@ -1396,15 +1594,39 @@ def progress_aggregate_rule(chk, rid, drv):
            f"keys {k_a!r} / {k_a2!r} for two samples of (client 0, task a); after shipping a sample at 25% and then one at 50% the table holds {kept}",
            key=f"{_D}:Driver.update_samples:progress-table-key:same-client-and-task")
     # (mean)
+    if not found and not aggs:
+        raise aggs_missing
     resets = [st for m in drv.methods(DR).values() for st in walk_body(m) if isinstance(st, ast.Assign) and any(is_self_attr(t, T) for t in st.targets)]
     empty = [st for st in resets if (isinstance(st.value, ast.Dict) and not st.value.keys) or (isinstance(st.value, ast.Call) and dotted(st.value.func) == "dict" and not st.value.args and not st.value.keywords)]
     if not resets or len(empty) != len(resets):
         chk.unknown(rid, f"self.{T} is not (only) reset to an empty table: entries may exist before a client reports, the mean is not decided here", resets[0] if resets else DR)
         return
-    site = aggs[0][0]
-    other = sorted({x.attr for _, a in aggs for x in ast.walk(a) if is_self_attr(x) and x.attr != T}
-                   | {u(x.func) for _, a in aggs for x in ast.walk(a) if isinstance(x, ast.Call) and dotted(x.func) not in _PURE_BUILTINS
-                      and not (isinstance(x.func, ast.Attribute) and x.func.attr in ("values", "keys", "items", "get"))})
+    instance = "reported progress of a step does not drop when a further client reports for the first time (mean over all clients / allocations of the step, or a per-step high-water mark)"
+    key = f"{_D}:Driver.update_progress_message:progress-mean-divisor"
+    site = aggs[0][0] if aggs else source.enclosing_stmt(found[3]) if found[3] is not None else up
+    if found:
+        # decided on the figures the walk hands to the reporter
+        try:
+            seq = reported([sample(0, TA, 0.6), sample(1, TA, 0.2)])
+        except CannotEval as e:
+            chk.unknown(rid, f"Driver.update_progress_message is not walkable after a second client's first shipment: {e}", site)
+            return
+        ok = all(b >= a - 1e-9 for a, b in zip(*seq))
+        if not ok and not all(b < a - 1e-9 for a, b in zip(*seq)):
+            chk.unknown(rid, f"the figures handed to the progress reporter move in different directions when a second client reports ({figures(seq)}): the reported progress is not located", site)
+            return
+        detail = f"Driver.update_progress_message walked after every shipment (self.{T} is reset to an empty table for every step): client 0 reports 60%, then client 1 reports its first sample at 20% => " \
+                 f"the progress reporter is handed {figures(seq)}" \
+            + ("" if ok else (f" before the high-water mark self.{hw[0]} is applied" if hw else ": the mean is taken over the clients that have reported so far"))
+        chk.ob(rid, instance, ok or bool(hw), site, detail, key=key)
+        return
+    # the members of the driver the extracted aggregate reads besides the table (in the helpers it calls, too); a method of the driver is not state
+    called = [methods[x.func.attr] for _, a in aggs for x in ast.walk(a) if isinstance(x, ast.Call) and isinstance(x.func, ast.Attribute) and isinstance(x.func.value, ast.Name)
+              and x.func.value.id in ("self", "cls", DR.name) and x.func.attr in methods]
+    exprs = [a for _, a in aggs] + [g for f in called for g in closure(f)]
+    other = sorted({x.attr for a in exprs for x in ast.walk(a) if is_self_attr(x) and x.attr != T and x.attr not in methods}
+                   | {u(x.func) for a in exprs for x in ast.walk(a) if isinstance(x, ast.Call) and dotted(x.func) not in _PURE_BUILTINS
+                      and not (isinstance(x.func, ast.Attribute) and (x.func.attr in ("values", "keys", "items", "get", "append", "extend") or x.func.attr in methods))})
     text = "; ".join(short(a, 150) for _, a in aggs)
     try:
         seq = replay([sample(0, TA, 0.6), sample(1, TA, 0.2)])
@@ -1420,8 +1642,7 @@ def progress_aggregate_rule(chk, rid, drv):
             return
         ok = True
         detail = f"`{text}` also reads {', '.join(('self.' + o) if '.' not in o else o for o in other) or 'self.' + hw[0]}: not a function of the reports received so far alone (not evaluated)"
-    chk.ob(rid, "reported progress of a step does not drop when a further client reports for the first time (mean over all clients / allocations of the step, or a per-step high-water mark)",
-           ok or bool(hw), site, detail, key=f"{_D}:Driver.update_progress_message:progress-mean-divisor")
+    chk.ob(rid, instance, ok or bool(hw), site, detail, key=key)
 
 
 def _section(chk, rid, fn, *args):
@@ -2494,6 +2715,78 @@ _GEN_MERGED = """        progress_control = self.task_progress_control
             return
 """
 
+# Driver.update_progress_message as it is on the pinned tree and refactored shapes of it (hardening round 4): the averaging extracted into a helper method (benign/C11-b10); guard
+# clause + printing extracted into a helper that reads the reporter into a local and formats with f-strings; the mean accumulated by a loop
+_UPM_OLD = """    def update_progress_message(self, task_finished=False):
+        if not self.quiet and self.current_step >= 0:
+            tasks = ",".join([t.name for t in self.tasks_per_join_point[self.current_step]])
+
+            if task_finished:
+                total_progress = 1.0
+            else:
+                # we only count clients which actually contribute to progress. If clients are executing tasks eternally in a parallel
+                # structure, we should not count them. The reason is that progress depends entirely on the client(s) that execute the
+                # task that is completing the parallel structure.
+                progress_per_client = [
+                    s.percent_completed for s in self.most_recent_sample_per_client.values() if s.percent_completed is not None
+                ]
+
+                num_clients = max(len(progress_per_client), 1)
+                total_progress = sum(progress_per_client) / num_clients
+            self.progress_reporter.print("Running %s" % tasks, "[%3d%% done]" % (round(total_progress * 100)))
+            if task_finished:
+                self.progress_reporter.finish()
+"""
+_UPM_MEAN_HELPER = """    def update_progress_message(self, task_finished=False):
+        if not self.quiet and self.current_step >= 0:
+            tasks = ",".join([t.name for t in self.tasks_per_join_point[self.current_step]])
+
+            total_progress = 1.0 if task_finished else self._progress_of_current_step()
+            self.progress_reporter.print("Running %s" % tasks, "[%3d%% done]" % (round(total_progress * 100)))
+            if task_finished:
+                self.progress_reporter.finish()
+
+    def _progress_of_current_step(self):
+        progress_per_client = [s.percent_completed for s in self.most_recent_sample_per_client.values() if s.percent_completed is not None]
+
+        num_clients = max(len(progress_per_client), 1)
+        return sum(progress_per_client) / num_clients
+"""
+_UPM_PRINT_HELPER = """    def update_progress_message(self, task_finished=False):
+        if self.quiet or self.current_step < 0:
+            return
+        tasks = ",".join([t.name for t in self.tasks_per_join_point[self.current_step]])
+        self._show(tasks, 1.0 if task_finished else self._progress_of_current_step(), task_finished)
+
+    def _show(self, tasks, progress, finished):
+        reporter = self.progress_reporter
+        reporter.print(f"Running {tasks}", f"[{round(progress * 100):3d}% done]")
+        if finished:
+            reporter.finish()
+
+    def _progress_of_current_step(self):
+        progress_per_client = [s.percent_completed for s in self.most_recent_sample_per_client.values() if s.percent_completed is not None]
+        return sum(progress_per_client) / max(len(progress_per_client), 1)
+"""
+_UPM_LOOP = """    def update_progress_message(self, task_finished=False):
+        if self.quiet:
+            return
+        if self.current_step < 0:
+            return
+        tasks = ",".join([t.name for t in self.tasks_per_join_point[self.current_step]])
+        total, reporting = 0.0, 0
+        for s in self.most_recent_sample_per_client.values():
+            if s.percent_completed is None:
+                continue
+            total += s.percent_completed
+            reporting += 1
+        total_progress = 1.0 if task_finished else total / max(reporting, 1)
+        self.progress_reporter.print("Running %s" % tasks, "[%3d%% done]" % (round(total_progress * 100)))
+        if task_finished:
+            self.progress_reporter.finish()
+"""
+_KEY_OLD, _KEY_TASK = "                self.most_recent_sample_per_client[s.client_id] = s", "                self.most_recent_sample_per_client[s.task] = s"
+
 VARIANTS = [
     V("completed it > total", "break", _D, "        return self._it >= self._total_iterations", "        return self._it > self._total_iterations", "O5.1"),
     V("warmup it <= W", "break", _D, "        return metrics.SampleType.Warmup if self._it < self._warmup_iterations else metrics.SampleType.Normal", "        return metrics.SampleType.Warmup if self._it <= self._warmup_iterations else metrics.SampleType.Normal", "O5.1"),
@@ -2678,4 +2971,15 @@ VARIANTS = [
        "            executor_args = (client_id, task, schedule, es, self.sampler, self.cancel, self.complete, task.error_behavior(self.abort_on_error))\n            async_executor = AsyncExecutor(*executor_args)\n", "O5.4"),
      V("", "break", _D, "        self.schedule_handle.start()\n        rampup_wait_time = self.schedule_handle.ramp_up_wait_time\n        if rampup_wait_time:\n            self.logger.debug(\"client id [%s] waiting [%.2f]s for ramp-up.\", self.client_id, rampup_wait_time)\n            await asyncio.sleep(rampup_wait_time)\n",
        "        rampup_wait_time = self.schedule_handle.ramp_up_wait_time\n        if rampup_wait_time:\n            self.logger.debug(\"client id [%s] waiting [%.2f]s for ramp-up.\", self.client_id, rampup_wait_time)\n            await asyncio.sleep(rampup_wait_time)\n        self.schedule_handle.start()\n")],
+    # ---- hardening round 4: O5.7 reads the reported progress off a WALK of update_progress_message (what reaches the reporter's print, on the paths of the method), so the method's
+    # shape does not matter; the mean side is a known finding (F47) on every one of these shapes - located and reported under the same key, never `anchor missing`
+    V("progress mean extracted into a helper method (benign/C11-b10; same known findings, same keys)", "keep", _D, _UPM_OLD, _UPM_MEAN_HELPER),
+    V("progress: guard clause, printing extracted into a helper (reporter in a local, f-strings), mean in a helper", "keep", _D, _UPM_OLD, _UPM_PRINT_HELPER),
+    V("progress: two guard clauses, mean accumulated by a loop with continue", "keep", _D, _UPM_OLD, _UPM_LOOP),
+    [V("progress mean in a helper method, table keyed by the task only", "break", _D, _UPM_OLD, _UPM_MEAN_HELPER, "O5.7"), V("", "break", _D, _KEY_OLD, _KEY_TASK)],
+    [V("progress printed by a helper, table keeps the FIRST sample of a client (setdefault)", "break", _D, _UPM_OLD, _UPM_PRINT_HELPER, "O5.7"),
+     V("", "break", _D, _KEY_OLD, "                self.most_recent_sample_per_client.setdefault(s.client_id, s)")],
+    [V("F47 repaired by a per-step high-water mark kept in the extracted helper", "keep", _D, _UPM_OLD,
+       _UPM_MEAN_HELPER.replace("        return sum(progress_per_client) / num_clients\n", "        self.shown_progress = max(self.shown_progress, sum(progress_per_client) / num_clients)\n        return self.shown_progress\n")),
+     V("", "keep", _D, "            self.most_recent_sample_per_client = {}\n", "            self.most_recent_sample_per_client = {}\n            self.shown_progress = 0.0\n")],
 ]
